@@ -273,6 +273,28 @@ def validate_maxwell(ctx, families=("mx_regular", "mx_singular", "mx_two", "mx_p
     return res
 
 
+def validate_sparse(ctx):
+    """COMPILED default_sparse_kernel + laplace_beltrami_kernel (+ the compiled P1 surface-gradient evaluator) against the
+    numeric value of the trace of props/asm_gen_sparse.py."""
+    from props import asm_gen_sparse as sg
+    res = Result()
+    import bempp_cl.core.numba_kernels as nk
+    import bempp_cl.api.space.shapesets as sh
+    import bempp_cl.api.space.scalar_spaces as ss
+    env = ag.Env()
+    num = Numeric(ctx.rng)
+    grad = sh._SHAPESETS["p1_discontinuous"]["gradient"]
+    for kind in ("p1", "dp1"):
+        tr = sg.trace_laplace_beltrami(env, kind)
+        out = np.zeros(tr.shape[0])
+        nk.default_sparse_kernel(num.griddata(""), 3, 3, np.array(sg.ELEMENTS, dtype=np.uint32), num.qp.copy(), num.qw.copy(),
+                                 num.nmt.copy(), num.nms.copy(), num.mt.copy(), num.ms.copy(), grad, grad,
+                                 ss._numba_p1_surface_gradient, ss._numba_p1_surface_gradient, nk.laplace_beltrami_kernel, out)
+        traced = {(k,): st.Sym.lift(tr[k]).t for k in range(tr.shape[0])}
+        _compare(res, "sparse_lb_" + kind, traced, out, num, tol=1e-13)
+    return res
+
+
 def validate(ctx, families=("regular", "singular", "potential")):
     res = Result()
     import bempp_cl.core.numba_kernels as nk
